@@ -28,9 +28,9 @@ import (
 func init() {
 	core.Register(&core.Prop{
 		ID: "C17", Level: "fault_enumeration",
-		Rule: "cases are crash images: for every operation of generated histories (3-25 operations: save-and-increment, target/sender counter updates, reset, refresh, reads, reopen) and every crash point inside it, the process-crash image, every torn image of the in-flight write (cut at every byte up to 64 bytes, 32 seed-chosen cuts beyond) and the power-loss image; each image is reopened and judged, then 3-6 further operations are run; for SQL, every statement of save-and-increment is failed in turn at every position of a history; non-trivial = image taken strictly inside an operation; distinct by (operation, crash point, image kind, cut class)",
+		Rule:        "cases are crash images: for every operation of generated histories (3-25 operations: save-and-increment, target/sender counter updates, reset, refresh, reads, reopen) and every crash point inside it, the process-crash image, every torn image of the in-flight write (cut at every byte up to 64 bytes, 32 seed-chosen cuts beyond) and the power-loss image; each image is reopened and judged, then 3-6 further operations are run; for SQL, every statement of save-and-increment is failed in turn at every position of a history; non-trivial = image taken strictly inside an operation; distinct by (operation, crash point, image kind, cut class)",
 		Assumptions: []string{"file creation and removal are treated as durable at the time they happen", "a torn write leaves a prefix of the new bytes and the old bytes after it", "when the recovered counter is the before value although the interrupted save completed, saving that number again may leave both versions under it"},
-		FloorQuick: 100, FloorThorough: 120,
+		FloorQuick:  100, FloorThorough: 120,
 		Parts: []core.Part{{Name: "file", Run: runFile, Replay: replayFile}, {Name: "sql", Run: runSQL}},
 	})
 }
@@ -211,17 +211,17 @@ func msgBytes(r *rand.Rand, n int) []byte {
 }
 
 type witness struct {
-	History []hop  `json:"history"`
-	OpIndex int    `json:"interrupted_operation_index"`
-	Op      string `json:"interrupted_operation"`
-	Step    string `json:"crash_point"`
-	File    string `json:"file"`
-	Image   string `json:"image_kind"`
-	Cut     int    `json:"torn_after_bytes,omitempty"`
-	WriteN  int    `json:"write_size,omitempty"`
-	Before  string `json:"model_before"`
-	After   string `json:"model_after"`
-	Found   string `json:"recovered"`
+	History []hop             `json:"history"`
+	OpIndex int               `json:"interrupted_operation_index"`
+	Op      string            `json:"interrupted_operation"`
+	Step    string            `json:"crash_point"`
+	File    string            `json:"file"`
+	Image   string            `json:"image_kind"`
+	Cut     int               `json:"torn_after_bytes,omitempty"`
+	WriteN  int               `json:"write_size,omitempty"`
+	Before  string            `json:"model_before"`
+	After   string            `json:"model_after"`
+	Found   string            `json:"recovered"`
 	Files   map[string]string `json:"image_files"`
 }
 
